@@ -240,7 +240,7 @@ def _model_self():
 
 
 def _model_summaries():
-    def trip(c):
+    def trip(c, *names):
         c.attrs["tripped"] += 1
     return {"Transition": mk_transition, "Event": mk_event, "Canary.trip": trip}
 
